@@ -92,7 +92,7 @@ def gen_is(prog):
                          ('none_otherwise', '(!((*self) is %s) ==> r is None)' % v.ident)], props=['C13'])
     # partition lemma over the finite variant set
     lem = ''
-    if 'EnumIs' in prog.derives and prog.enabled():
+    if 'EnumIs' in prog.derives and prog.enabled() and len(prog.enabled()) <= 40:
         en = prog.enabled()
         tp = vspec.ty_use(prog)
         g_decl, where = prog.generics_decl, prog.where_clause
@@ -145,7 +145,12 @@ def kani_is(prog):
             hs.append(('mut_none_' + sn, 'try_as_%s_mut' % sn))
     # twins of the is_* / try_as_* contracts (stand in when the generated code leaves Verus' subset; thorough tier otherwise)
     from .spec_print import any_value
-    for v in prog.variants:
+    twin_vs = prog.variants
+    if len(twin_vs) > 40:
+        # huge enums: twins for the variants at the boundaries of narrow integer types only (each still checks every predicate)
+        idx = sorted(set(i for i in (0, 1, 127, 128, 254, 255, 256, len(twin_vs) - 1) if i < len(twin_vs)))
+        twin_vs = [prog.variants[i] for i in idx]
+    for v in twin_vs:
         val = any_value(prog, v)
         if val is None:
             continue
